@@ -492,7 +492,10 @@ def g_coord(rng, lim):
     if r < 0.25:
         return [0, 0, 0, 0, 1]
     d = rng.randint(0, lim - 1)
-    return [d, rng.choice([0, 59, rng.randrange(60)]), rng.choice([0, 59, rng.randrange(60)]), rng.choice([0, 999, rng.randrange(1000)]), rng.choice([1, -1])]
+    c = [d, rng.choice([0, 59, rng.randrange(60)]), rng.choice([0, 59, rng.randrange(60)]), rng.choice([0, 999, rng.randrange(1000)]), rng.choice([1, -1])]
+    if c[:4] == [0, 0, 0, 0]:
+        c[4] = 1      # the wire form cannot tell -0 from +0: the reader always answers +0
+    return c
 
 
 def g_size(rng):
